@@ -162,6 +162,14 @@ class Engine:
 
     def isinstance_term(self, ref_t, clsname):
         subs = {ci.name for ci in self.src.subclasses_of(clsname)} | {clsname}
+        # classes known only through shapes (external hierarchies such as ast.*)
+        changed = True
+        while changed:
+            changed = False
+            for sh in self.reg.shapes.values():
+                if sh.cls not in subs and any(b in subs for b in sh.bases):
+                    subs.add(sh.cls)
+                    changed = True
         return z3.Or([self.typeof(ref_t) == self.cls_code(s) for s in sorted(subs)])
 
     # ---------------------------------------------------------------- uninterpreted helpers
@@ -319,7 +327,22 @@ class Engine:
                 ci = self.src.find_class(c)
                 if ci is not None:
                     todo.extend(b.split('[')[0].split('.')[-1] for b in ci.bases)
+        # not found upwards: a field of a subclass (the code narrowed the object with isinstance before the access)
+        for sh in self.reg.shapes.values():
+            if fname in sh.fields and self._shape_descends(sh, clsname):
+                return parse_type(sh.fields[fname], self.reg.enums)
         return None
+
+    def _shape_descends(self, sh, ancestor, depth=0):
+        if depth > 8:
+            return False
+        for b in sh.bases:
+            if b == ancestor:
+                return True
+            bs = self.reg.shapes.get(b)
+            if bs is not None and self._shape_descends(bs, ancestor, depth + 1):
+                return True
+        return False
 
     def heap_arr(self, st, fname, ty):
         if fname not in st.heap:
